@@ -60,15 +60,9 @@ theorem worldOK2_of_check {cs : List ClassDesc} {h : Heap} (hb : worldOK2B cs h 
   obtain ⟨⟨h1, h2⟩, h3⟩ := hb
   have inst : ∀ (l : Nat) (o : Obj), h[l]? = some o → instOKB cs h o = true :=
     fun l o ho => List.all_eq_true.mp h3 o (List.mem_of_getElem? ho)
-  refine { wf := wf_of_check h1, classes := ?_, insts := ?_, nodup := ?_, ctor := ?_, subDict := ?_ }
+  refine { wf := wf_of_check h1, classes := ?_, nodup := ?_, ctor := ?_, subDict := ?_ }
   · intro ci cd hcd
     exact classOK_of_check (List.all_eq_true.mp h2 cd (List.mem_of_getElem? hcd))
-  · intro l o ci cd ho hk hcd hnc
-    have := inst l o ho
-    simp only [instOKB, hk, hcd, Bool.and_eq_true, Bool.or_eq_true, decide_eq_true_eq] at this
-    rcases this.2.1 with h4 | h4
-    · exact absurd h4 hnc
-    · exact h4
   · intro l o ci ho hk
     have := inst l o ho
     simp only [instOKB, hk, Bool.and_eq_true, decide_eq_true_eq] at this
@@ -76,15 +70,12 @@ theorem worldOK2_of_check {cs : List ClassDesc} {h : Heap} (hb : worldOK2B cs h 
   · intro l o ci cd ho hk hcd k hmem
     have := inst l o ho
     simp only [instOKB, hk, hcd, Bool.and_eq_true] at this
-    have := List.all_eq_true.mp this.2.2 k hmem
+    have := List.all_eq_true.mp this.2 k hmem
     simp only [decide_eq_true_eq] at this
     exact this
   · intro l o d ci ho hk hd
     have := inst l o ho
     simp only [instOKB, hk, hd, Bool.and_eq_true, decide_eq_true_eq] at this
     exact this.1.2
-
-theorem stepsLocal_sound {steps : List Step} (hb : stepsLocal steps = true) : ∀ s, s ∈ steps → s.isLocal = true :=
-  fun s hs => List.all_eq_true.mp hb s hs
 
 end Fsic.Heap
